@@ -91,9 +91,9 @@ static void simDie(const char *msg)
 
 /* ---- plan --------------------------------------------------------------- */
 enum { CLS_AO, CLS_FM, CLS_C, CLS_H, CLS_LSP, CLS_JAVA, CLS_ASY, CLS_AP,
-       CLS_AI, CLS_MAIN, CLS_SRC, CLS_LIB, CLS_OTHER, CLS_N };
+       CLS_AI, CLS_MAIN, CLS_SRC, CLS_LIB, CLS_OTHER, CLS_CPPH, CLS_CPPAS, CLS_N };
 static const char *clsName[CLS_N] = { "ao", "fm", "c", "h", "lsp", "java",
-	"asy", "ap", "ai", "main", "src", "lib", "other" };
+	"asy", "ap", "ai", "main", "src", "lib", "other", "cpph", "cppas" };
 
 enum { FF_ENOSPC, FF_EIO, FF_CLOSEFAIL, FF_OPENFAIL, FF_CRASH, FF_MKDIRFAIL };
 
@@ -578,6 +578,8 @@ static int clsOfPath(const char *path)
 	const char *b = baseName(path), *dot = strrchr(b, '.');
 	size_t n = strlen(b);
 	if (n >= 11 && !strcmp(b + n - 11, "aldormain.c")) return CLS_MAIN;
+	if (n >= 5 && !strcmp(b + n - 5, "_cc.h")) return CLS_CPPH;	/* -Fc++ writes <name>_cc.h and <name>_as.as */
+	if (n >= 6 && !strcmp(b + n - 6, "_as.as")) return CLS_CPPAS;
 	if (!dot) return CLS_OTHER;
 	if (!strcmp(dot, ".ao")) return CLS_AO;
 	if (!strcmp(dot, ".fm")) return CLS_FM;
